@@ -26,7 +26,7 @@ def cases(tier, seed):
     rng = random.Random(seed * 217645199 + 6)
     out = []
     for k in range(n):
-        c = layout_gen.anchors_font(rng)
+        c = layout_gen.anchors_font(rng) if rng.random() < 0.85 else layout_gen.mark_conflict_font(rng)
         c.update({"cid": f"c06-{seed}-{k}", "lib": rng.choice(["ufoLib2", "defcon"]), "writers": ["mark"]})
         out.append(c)
     return out
